@@ -39,6 +39,10 @@ type jLifeDevice struct {
 	EarlyMs    int      `json:"early_ms"`    // >= 0: do not wait for the LED connection; start feeding after this many ms
 	NoServer   bool     `json:"no_server"`   // nothing listens on the OpenRGB port
 	MidiStream bool     `json:"midi_stream"` // MIDI input keeps arriving until the device has returned
+	// ServerDiesMs > 0: once the LED loop is refreshing, the OpenRGB server dies (listener and connection closed) and the device
+	// stays connected for this many ms before its events are fed: whatever the LED loop does about the failing requests, key
+	// events must still be processed and the device must still terminate promptly
+	ServerDiesMs int `json:"server_dies_ms"`
 }
 
 type jLifeScenario struct {
@@ -152,6 +156,10 @@ func runLifeDevice(c jLifeDevice) (res jLifeDevResult) {
 		res.Connected = srv.waitFrame(0, func(*orgbFrame) bool { return true }, 9*time.Second) != nil
 		if !res.Connected {
 			res.Err = "no LED frame within 9 s of starting ProcessEvents"
+		}
+		if res.Connected && c.ServerDiesMs > 0 {
+			srv.kill()
+			time.Sleep(time.Duration(c.ServerDiesMs) * time.Millisecond)
 		}
 	}
 	send := func(e *input.InputEvent) bool {
